@@ -208,6 +208,13 @@ def run(chk):
             chk.note(f'gen_cent schedule replay not available: {type(e).__name__}: {str(e)[:200]}')
     chk.part('schedule_replay', schedules=nsch)
     chk.add_cases(nrun + nfc + nsch, nontrivial=nontriv + nfc, traces=nrun + nfc + nsch)
+    # ---- extended coverage (beyond C10): the AbacusHOD object across many calls — spec/HodSession.tla
+    try:
+        import hodsession
+        hodsession.run(chk)
+    except Exception as e:  # noqa
+        chk.extended('AbacusHOD session: run_hod output depends on (random epoch, tracers, rsd) only; gal_reader returns the last write; compute_ngal is pure',
+                     False, f'not evaluated: {type(e).__name__}: {str(e)[:300]}')
 
 
 def replay(chk, path):
